@@ -199,6 +199,14 @@ def pair(kind: str):
                          Task("rel", effort=P("e2"), alloc=["r"], deps=[Dep("build")])], [Res("r"), Res("q")], length="4w")
         ren = lambda tid: tid.replace("grp.build", "grp.nbuild")
         return mk(True), mk(False), ren
+    if kind == "alap-same-local-id":
+        # backward scheduling from an anchored task whose two predecessors have the same local id in different containers
+        def mk(second: str) -> Spec:
+            FRI = 9 * H + 4 * 86400 + 8 * H
+            return Spec([Task("ph1"), Task("design", parent="ph1", effort=P("e0"), alloc=["q1"]), Task("ph2"), Task(second, parent="ph2", effort=P("e1"), alloc=["q2"]),
+                         Task("release", effort=P("e2"), alloc=["r"], scheduling="alap", end=FRI + 7 * 86400, deps=[Dep("ph1.design"), Dep("ph2." + second)])],
+                        [Res("r"), Res("q1"), Res("q2")], length="4w")
+        return mk("design"), mk("build"), (lambda tid: tid.replace("ph2.design", "ph2.build"))
     if kind == "shift-vs-inline":
         hours = ["mon - thu 8:00 - 12:00, 13:00 - 17:00", "fri 8:00 - 13:00"]
         tasks = lambda: [Task("a", effort=P("e0"), alloc=["r"]), Task("b", effort=P("e1"), alloc=["r"], deps=[Dep("a")])]
@@ -215,7 +223,7 @@ def pair(kind: str):
     raise ValueError(kind)
 
 
-PAIRS = ["depends-vs-precedes", "precedes-same-local-id", "relative-vs-absolute", "nested-vs-root-id", "shift-vs-inline", "renamed"]
+PAIRS = ["alap-same-local-id", "depends-vs-precedes", "precedes-same-local-id", "relative-vs-absolute", "nested-vs-root-id", "shift-vs-inline", "renamed"]
 
 
 def cells(tier: str) -> dict:
